@@ -18,7 +18,7 @@ def gen(chk, tier, zoo, paths):
         for i in range(n):
             m = rng.choice(zoo)
             s = fsgen.gen_history(rng, policy, m, paths[m['name']], nevents=rng.choice([30, 50, 70] if tier == 'quick' else [60, 100, 150]),
-                                  profile=rng.choice(['mem', 'mem', 'fill', 'mempres']), name='%s%04d' % (policy[:2], i),
+                                  profile=rng.choice(['mem', 'fill', 'mempres', 'mempres']), name='%s%04d' % (policy[:2], i),
                                   reconfig=rng.choice([0, 0.04]), sync=rng.choice([0, 0.03]), restart=rng.choice([0, 0.02]))
             s['_machine'] = m
             scripts.append(s)
